@@ -317,6 +317,17 @@ func (c12) RunCase(c *core.Ctx) {
 	if c.Case%40 == 11 && !c12SelfReported(c) {
 		return
 	}
+	if c.Case%40 == 12 {
+		c.Eval(3)
+		if problem := dPreprocessStruct(); problem != "" && !strings.Contains(problem, "present values") {
+			c.Violation("preprocess-argument", map[string]any{"schema": "{order: Preprocess(fn, Struct{...}), ID: String()}", "observed": problem})
+			return
+		}
+		if problem := dNamedStringTests(); problem != "" {
+			c.Violation("callback-value-type", map[string]any{"schema": "StringSchema[dEnv].TestFunc(fn)", "observed": problem})
+			return
+		}
+	}
 	if c.Case%20 == 7 && !c12InPlace(c) {
 		return
 	}
